@@ -52,6 +52,9 @@ pub fn est_laws(_args: &[String]) -> String {
                 t += Duration::from_millis(g * unit_ms);
                 steps += g * per_unit;
                 e.record(steps, t);
+                // updates that bring no progress (a redraw, a steady tick) at the same instant or in between must not
+                // change what the estimator has learnt: "no matter how often or how irregularly updates arrive"
+                e.record(steps, t);
                 let r = e.rate(t);
                 tried += 1;
                 if !(r.is_finite() && r >= 0.0) {
@@ -67,6 +70,21 @@ pub fn est_laws(_args: &[String]) -> String {
                     if !(q.is_finite() && q >= 0.0 && q <= rate * (1.0 + 1e-6)) {
                         return format!("{{\"found\": true, \"clause\": \"C09 the rate lies between zero and the largest rate observed\", \"input\": {{\"rate\": {}, \"gap_units\": {:?}, \"stall_ms\": {}, \"reported\": \"{}\"}}, \"rerun\": \"replay est_laws\"}}", rate, gaps, stall_ms, q);
                     }
+                }
+            }
+            // idle updates during a stall do not erase the stall: the rate at t+stall is the same with and without them
+            {
+                let stall = Duration::from_millis(3000);
+                let plain = e.rate(t + stall);
+                let mut k = 1u64;
+                while k < 12 {
+                    e.record(steps, t + Duration::from_millis(250 * k));
+                    k += 1;
+                }
+                let with_idle = e.rate(t + stall);
+                tried += 1;
+                if (with_idle - plain).abs() > 1e-6 * plain.abs().max(1e-12) {
+                    return format!("{{\"found\": true, \"clause\": \"C09 updates without progress do not change the estimate (rate independent of how often updates arrive, decay while stalled)\", \"input\": {{\"rate\": {}, \"gap_units\": {:?}, \"rate_after_3s_stall\": {}, \"same_with_11_idle_updates\": {}}}, \"rerun\": \"replay est_laws\"}}", rate, gaps, plain, with_idle);
                 }
             }
             // reset forgets: fresh steady samples at ten times the rate
